@@ -20,6 +20,10 @@ MANIFEST = dict(
          "std::hash<string>/std::hash<uint32_t> are libstdc++.",
     technique="Lean 4 proof (induction over address bytes / range length) + model/impl correspondence + spec oracle",
     design="DESIGN.md §6 C16")
+MANIFEST["note"] += (" Constants and limits of the C++ source that the model restates (translator/gen_limits.py -> Gen/Limits.lean: "
+                     "compiled probe + preprocessed function bodies at named anchors) are tied to the model's numerals by the "
+                     "theorems of lean/TinsModel/Props/Limits/C16.lean (audit: Audit/LimitsC16.lean); tools/LIMITS-INVENTORY.md lists "
+                     "what is tied and what is not.")
 
 FAMS = {"4": 4, "6": 16, "h": 6}
 CASE_START = ("cmp", "bit", "txt", "fmt", "pfx", "msk", "rng", "has", "inc", "dec")
